@@ -17,6 +17,7 @@ import io
 import json
 import os
 import random
+import sys
 import typing as t
 import warnings
 
@@ -34,7 +35,7 @@ SOURCES = ["SqlframeModel/Props/C04.lean", "SqlframeModel/Impl/C04.lean"]
 ACTIONS = ["collect", "count", "show", "head", "first", "isEmpty", "toPandas", "toArrow", "columns", "sql", "schema", "sql_opt"]
 EXTRA = ["join_name", "join_expr", "crossJoin", "union", "unionByName", "intersect", "exceptAll", "groupBy_agg", "groupBy_count", "agg", "alias",
          "hint", "repartition", "dropna", "replace", "unpivot", "toDF", "cube", "na_fill", "dropDuplicates", "select_star", "select_none",
-         "withColumns", "cache", "transform", "createOrReplaceTempView", "sort", "filter_str", "selectExpr_like", "getattr"]
+         "withColumns", "cache", "transform", "createOrReplaceTempView", "sort", "filter_str", "selectExpr_like", "getattr", "alias_use", "alias_other"]
 
 
 class CountingConn:
@@ -138,8 +139,14 @@ def gen_scenario(rng: random.Random, n_events: int) -> dict:
             col = rng.choice(list(sch))
             events.append({"op": "getItem", "r": r, "n": col, "via": rng.choice(["item", "attr", "F.col"])})
             handles.append((r, col))
+        elif c < 0.79:
+            # a second DataFrame made directly from the session, same data, every column spelled differently
+            events.append({"op": "create", "r": 0, "spell": rng.choice(["upper", "title"])})
         else:
-            events.append({"op": "extra", "r": r, "which": rng.choice(EXTRA), "other": rng.randrange(len(schemas))})
+            # `rx`: with some probability the receiver is an earlier result outside the Lean alphabet (alias, hint,
+            # join, union, …) — those end in states where the operation wrapper does not start a new block
+            events.append({"op": "extra", "r": r, "which": rng.choice(EXTRA), "other": rng.randrange(len(schemas)),
+                           "rx": rng.randrange(64) if rng.random() < 0.4 else None})
     return {"schema": schema, "rows": rows, "events": events}
 
 
@@ -176,6 +183,7 @@ def snap_df(df, rows: bool = True) -> dict:
             "expr": df.expression.sql(dialect="duckdb"),
             "display": dict(df.display_name_mapping),
             "hints": [h.sql() for h in df.pending_hints],
+            "last_op": str(getattr(df, "last_op", None)),
             "sql": df.sql(optimize=False),
             # dropDuplicates(subset) keeps an arbitrary representative: its rows are not a function of the object
             "rows": _rows(df) if rows else "not compared (nondeterministic by definition)",
@@ -263,6 +271,10 @@ def do_extra(df, other, which: str, F):
         return df.agg(F.count(c0).alias("CNT"))
     if which == "alias":
         return df.alias("t1")
+    if which == "alias_other":  # a sibling takes the same alias name
+        return other.alias("t1")
+    if which == "alias_use":  # a reference qualified by the alias name, resolved through the session's registry
+        return df.select(F.col("t1." + c0))
     if which == "hint":
         return df.hint("broadcast")
     if which == "repartition":
@@ -317,6 +329,18 @@ def run_impl(sc: dict) -> dict:
         handles: t.List[t.Any] = []
         extras: t.List[t.Any] = []  # results of calls outside the Lean alphabet: watched, not numbered by the model
         extras_det: t.List[bool] = []
+        probes: t.List[t.Tuple[int, t.Callable[[], t.Any], t.Any, bool]] = []  # (event, the call again, its first outcome, rows compared)
+
+        def outcome(call: t.Callable[[], t.Any], det: bool, first: t.Any = None) -> t.Any:
+            try:
+                d = first if first is not None else call()
+                if not isinstance(d, BaseDataFrame):
+                    return "no DataFrame"
+                sn = snap_df(d, det)
+                return {"columns": sn["columns"], "rows": sn["rows"]}
+            except Exception as e:  # noqa
+                return f"raised {type(e).__name__}"
+
         for ei, ev in enumerate(sc["events"]):
             before = [snap_df(d) for d in dfs] + [snap_df(d, det) for d, det in zip(extras, extras_det)]
             n_model = len(dfs)
@@ -329,7 +353,16 @@ def run_impl(sc: dict) -> dict:
                 if ev["op"] == "transform":
                     new = do_transform(dfs[ev["r"]], ev, handles, F)
                     info["engine"] = conn.n - n0
+                    # purity: the same call on the same receiver builds the same DataFrame again
+                    again = do_transform(dfs[ev["r"]], ev, handles, F)
+                    det = ev["step"]["k"] != "dropDuplicates"
+                    s1, s2 = snap_df(new, det), snap_df(again, det)
+                    for key in ("columns", "sql", "rows"):
+                        if s1[key] != s2[key]:
+                            out["problems"].append({"event": ei, "what": f"repeating the transformation on the same receiver built a different DataFrame ({key})", "first": str(s1[key])[:300], "second": str(s2[key])[:300]})
+                            break
                     dfs.append(new)
+                    probes.append((ei, (lambda r=dfs[ev["r"]], ev=ev: do_transform(r, ev, handles, F)), {"columns": s1["columns"], "rows": s1["rows"]}, det))
                 elif ev["op"] == "action":
                     a1 = do_action(dfs[ev["r"]], ev["which"])
                     info["engine"] = conn.n - n0
@@ -341,10 +374,27 @@ def run_impl(sc: dict) -> dict:
                     h = d[ev["n"]] if ev["via"] == "item" else (getattr(d, ev["n"]) if ev["via"] == "attr" else F.col(ev["n"]))
                     info["engine"] = conn.n - n0
                     handles.append(h)
-                else:
-                    new = do_extra(dfs[ev["r"]], dfs[ev["other"]], ev["which"], F)
+                elif ev["op"] == "create":
+                    f = str.upper if ev["spell"] == "upper" else str.title
+                    new = X.make_df(s, {f(k): v for k, v in sc["schema"].items()}, sc["rows"])
                     info["engine"] = conn.n - n0
-                    if isinstance(new, BaseDataFrame) and new is not dfs[ev["r"]]:
+                    extras.append(new)
+                    extras_det.append(True)
+                else:
+                    recv = dfs[ev["r"]]
+                    if ev.get("rx") is not None and extras:
+                        recv = extras[ev["rx"] % len(extras)]
+                    try:
+                        new = do_extra(recv, dfs[ev["other"]], ev["which"], F)
+                    except Exception as e0:
+                        if ev["which"] != "createOrReplaceTempView":
+                            probes.append((ei, (lambda r=recv, o=dfs[ev["other"]], w=ev["which"]: do_extra(r, o, w, F)), f"raised {type(e0).__name__}", True))
+                        raise
+                    info["engine"] = conn.n - n0
+                    if ev["which"] not in ("createOrReplaceTempView", "getattr", "groupBy_count") and isinstance(new, BaseDataFrame):
+                        det_x = ev["which"] != "dropDuplicates"
+                        probes.append((ei, (lambda r=recv, o=dfs[ev["other"]], w=ev["which"]: do_extra(r, o, w, F)), outcome(lambda: new, det_x, new), det_x))
+                    if isinstance(new, BaseDataFrame) and new is not recv:
                         # keep it alive and watched, but the model does not number it
                         extras.append(new)
                         extras_det.append(ev["which"] != "dropDuplicates")
@@ -355,7 +405,7 @@ def run_impl(sc: dict) -> dict:
             n_prev = len(before)
             after = [snap_df(d) for d in watched[:n_model]] + [snap_df(d, det) for d, det in zip(watched[n_model:], extras_det)]
             hafter = [snap_handle(h) for h in handles[: len(hbefore)]]
-            OBS = ("columns", "sql", "rows")  # what a DataFrame *reports*; the other keys are internal state
+            OBS = ("columns", "sql", "rows", "last_op")  # what a DataFrame reports, and the state its next operation starts from
             info["objs"] = [i for i in range(n_prev) if any(before[i][k] != after[i][k] for k in OBS)]
             info["internal"] = [i for i in range(n_prev) if before[i] != after[i] and i not in info["objs"]]
             info["objs_model"] = [i for i in info["objs"] if i < n_model]
@@ -367,13 +417,18 @@ def run_impl(sc: dict) -> dict:
                 i = info["handles"][0]
                 info["hdiff"] = [hbefore[i], hafter[i]]
             out["steps"].append(info)
+        # purity over time: every call, made again on the same receiver after everything else happened, builds the same DataFrame
+        for ei, call, first, det in probes:
+            again = outcome(call, det)
+            if again != first:
+                out["problems"].append({"event": ei, "what": "the same call on the same receiver gives a different result after the later events of the scenario", "first": str(first)[:300], "second": str(again)[:300]})
         out["final"] = [{"names": list(d.columns), "rows": _rows(d)} for d in dfs]
     except Exception as e:  # noqa
         out["err"] = f"{type(e).__name__}: {str(e)[:300]}"
     return out
 
 
-LAZY_OPS = ("transform", "getItem", "extra")
+LAZY_OPS = ("transform", "getItem", "extra", "create")
 LAZY_OBS = ("columns", "sql", "sql_opt")  # read-only observations that must not reach the engine either
 
 
@@ -390,7 +445,7 @@ def judge(sc: dict, impl: dict, model: dict) -> t.Tuple[t.List[str], t.List[str]
             fails.append(f"event {ei} ({describe(ev)}) rewrote Column handle(s) {st['handles']}: {st.get('hdiff')}")
         if (ev["op"] in LAZY_OPS or (ev["op"] == "action" and ev["which"] in LAZY_OBS)) and st["engine"] != 0 and not (ev["op"] == "extra" and ev["which"] in ("createOrReplaceTempView",)):
             fails.append(f"event {ei} ({describe(ev)}) is a transformation but sent {st['engine']} statement(s) to the engine")
-        if ev["op"] != "extra" and not (ev["op"] == "action" and ev["which"] in LAZY_OBS):
+        if ev["op"] not in ("extra", "create") and not (ev["op"] == "action" and ev["which"] in LAZY_OBS):
             m = next(msteps)
             if st["err"] is None:
                 if m["objs"] != st["objs_model"]:
@@ -411,7 +466,9 @@ def describe(ev: dict) -> str:
         return f"df{ev['r']}.{ev['which']}()"
     if ev["op"] == "getItem":
         return f"df{ev['r']}[{ev['n']!r}] via {ev['via']}"
-    return f"df{ev['r']}.{ev['which']}(df{ev['other']})"
+    if ev["op"] == "create":
+        return f"createDataFrame(same rows, column names {ev['spell']}-cased)"
+    return (f"extra[{ev['rx']} mod n]" if ev.get("rx") is not None else f"df{ev['r']}") + f".{ev['which']}(df{ev['other']})"
 
 
 def show_sc(sc: dict) -> str:
@@ -521,6 +578,37 @@ def run(ctx: Ctx) -> None:
         ]
         scs.append(sc)
 
+    # a receiver produced outside the Lean alphabet (alias / hint / join / union / …), then used as the receiver of every
+    # binary follow-up, then observed again
+    for first in ("alias", "hint", "join_name", "union", "crossJoin", "repartition", "cache"):
+        for second in ("join_name", "join_expr", "crossJoin", "union", "unionByName", "intersect", "exceptAll"):
+            sc = gen_scenario(ctx.rng, 0)
+            sc["events"] = [
+                {"op": "transform", "r": 0, "step": {"k": "where", "p": ("not", ("isNull", ("col", "x")))}, "namer": "none", "names": [], "hs": []},
+                {"op": "extra", "r": 0, "which": first, "other": 1, "rx": None},
+                {"op": "extra", "r": 0, "which": second, "other": 1, "rx": 0},
+                {"op": "extra", "r": 0, "which": second, "other": 0, "rx": 0},
+                {"op": "action", "r": 1, "which": "sql"},
+            ]
+            scs.append(sc)
+    # an aliased DataFrame keeps resolving its alias after a sibling (or it itself again) takes the same alias name
+    for other in (0, 1):
+        for use in ("alias_use", "filter_str", "sort"):
+            sc = gen_scenario(ctx.rng, 0)
+            sc["events"] = [
+                {"op": "transform", "r": 0, "step": {"k": "where", "p": ("not", ("isNull", ("col", "x")))}, "namer": "none", "names": [], "hs": []},
+                {"op": "extra", "r": 0, "which": "alias", "other": 0, "rx": None},
+                {"op": "extra", "r": 0, "which": "alias_use", "other": 0, "rx": 0},
+                {"op": "extra", "r": 0, "which": use, "other": 0, "rx": 0},
+                {"op": "extra", "r": 1, "which": "alias_other", "other": other, "rx": None},
+                {"op": "action", "r": 1, "which": "columns"},
+            ]
+            scs.append(sc)
+    for spell in ("upper", "title"):
+        sc = gen_scenario(ctx.rng, 0)
+        sc["events"] = [{"op": "action", "r": 0, "which": "columns"}, {"op": "create", "r": 0, "spell": spell}, {"op": "action", "r": 0, "which": "collect"}]
+        scs.append(sc)
+
     res = evaluate(scs)
     mism = [r for r in res if r["mismatch"]]
     if mism:
@@ -541,7 +629,7 @@ def run(ctx: Ctx) -> None:
     raised = 0
     for r in res:
         for ev, st in zip(r["case"]["events"], r["impl"].get("steps", [])):
-            key = ev["op"] if ev["op"] in ("getItem",) else (ev["step"]["k"] if ev["op"] == "transform" else ev["which"])
+            key = ev["op"] if ev["op"] in ("getItem", "create") else (ev["step"]["k"] if ev["op"] == "transform" else ev["which"])
             ev_hist[key] = ev_hist.get(key, 0) + 1
             n_events += 1
             raised += st.get("err") is not None
